@@ -290,6 +290,10 @@ func (x *Exec) frameEnv(f *Frame, st *State, header *ssa.BasicBlock) *Env {
 			if v, ok := g.regs[prm]; ok {
 				env.vars[prm.Name()] = v
 			}
+			// a slice parameter written through in a loop lives in a cell from the loop cut on
+			if p, ok := g.sliceObjs[prm]; ok {
+				env.vars[prm.Name()] = p
+			}
 		}
 		for _, fv := range g.fn.FreeVars {
 			if v, ok := g.regs[fv]; ok {
